@@ -368,7 +368,9 @@ func report(c *Ctx, cases []*Case, res []Result) {
 func runOracle(c *Ctx) {
 	g := newGen(c.Rng)
 	cases := sentinelCases()
+	cases = append(cases, regressionCases()...)
 	cases = append(cases, fixedCases()...)
+	cases = append(cases, nestedCases()...)
 	search := false
 	for _, a := range c.Args {
 		search = search || a == "search"
